@@ -798,13 +798,21 @@ fn schedules_from_bdl(bdl: &Data, id_maps: &IdMaps) -> Result<SchedulesDb, Error
                             .map(|(day, month)| day_of_year(*day, *month)),
                     )
                     .collect();
-                let day_count = end_day.windows(2).map(|t| t[1] - t[0]);
-
-                assert!(
-                    day_count.len() == sch.weeks.len()
-                        && day_count.len() == sch.months.len()
-                        && day_count.len() == sch.days.len()
-                );
+                // Las fechas de fin de periodo deben ser crecientes y haber una por horario semanal
+                if sch.weeks.len() != sch.months.len() || sch.weeks.len() != sch.days.len() {
+                    bail!(
+                        "Horario anual {} con distinto número de semanas, meses y días",
+                        sch.name
+                    );
+                }
+                let day_count = end_day
+                    .windows(2)
+                    .map(|t| {
+                        t[1].checked_sub(t[0]).ok_or_else(|| {
+                            format_err!("Horario anual {} con fechas no crecientes", sch.name)
+                        })
+                    })
+                    .collect::<Result<Vec<u32>, _>>()?;
 
                 let values = sch
                     .weeks
